@@ -278,6 +278,10 @@ def classify(fn, loop):
                             if _edge_leaves(cfg, loop, (sb, tb)):
                                 loop.form, loop.why = "counter", "bounded counter advanced on every cycle"
                                 return
+    # ---- indexed scan: `data.get(i)` on every cycle, its None arm leaves the loop, i never shrinks and grows on every cycle ----
+    if _indexget(fn, cfg, du, g, loop, facts):
+        loop.form, loop.why = "indexget", "exits when slice.get(i) is None; i only grows and grows on every cycle; the slice is not written in the loop"
+        return
     # ---- counter, general form: every cycle assigns the counter a provably larger value; the bound is loop-invariant ----
     if _counter_general(fn, cfg, du, g, loop):
         loop.form, loop.why = "counter", "the counter is assigned a strictly larger value on every cycle and compared with a loop-invariant bound"
@@ -303,6 +307,65 @@ def _on_every_cycle_set(cfg, loop, blocks):
             if s in loop.body and s not in blocks:
                 stack.append(s)
     return True
+
+
+def _indexget(fn, cfg, du, g, loop, facts):
+    from .numeric import numeric_of
+    num = numeric_of(fn, du, g)
+    groups = {}
+    for bid in sorted(loop.body):
+        t = cfg.blocks[bid]["term"]
+        if t["k"] != "call" or (callee_name(t) or "") not in ("core::slice::<impl [T]>::get", "core::str::<impl str>::get") or len(t["args"]) != 2:
+            continue
+        iv = strip_casts(du.val_operand(t["args"][1]))
+        if iv[0] == "aggregate" and iv[2] and iv[2].startswith("std::ops::Range") and iv[3]:
+            iv = strip_casts(iv[3][0])          # data.get(i..end): the start of the range is the position
+        if iv[0] != "place" or iv[1][1]:
+            continue
+        data = val_ref_target(du, du.val_operand(t["args"][0]))
+        if data is None:
+            continue
+        data = du.canon(data)
+        if any(kb in loop.body for kb, kidx, kind in g._killers(data)):
+            continue          # the scanned data must not change inside the loop
+        root, inv = optres_root(du, place_key(t["dest"]))
+        if not any(f[0] == "variant" and f[1] == root and f[3] is (True if inv else False) and e[0] in loop.body and _edge_leaves(cfg, loop, e) for e, f in facts):
+            continue
+        groups.setdefault((iv[1][0], data), []).append(bid)
+    for (i, data), gets in groups.items():
+        # every cycle looks at data[i..] at least once ...
+        if not _on_every_cycle_set(cfg, loop, gets):
+            continue
+        # ... and i never shrinks and grows at least once per cycle
+        grow, ok = [], True
+        for wb, idx, pk, wk in du.writes:
+            if pk[0] != i or wb not in loop.body:
+                continue
+            if pk[1] or wk != "assign":
+                ok = False
+                break
+            e = du.val_rvalue(du.blocks[wb]["stmts"][idx]["rv"], 0, wb)
+            num.ignore_write = (wb, idx)
+            try:
+                me = ("place", (i, ()))
+                es = strip_casts(e)
+                step = None
+                if es[0] == "binop" and es[1].startswith("Add"):
+                    a_, b_ = strip_casts(es[2]), strip_casts(es[3])
+                    other = b_ if a_ == me else (a_ if b_ == me else None)
+                    if other is not None:
+                        step = num.lower_bound(other, wb)      # i + len(chunk): the step is a length, hence >= 0
+                if num.prove_le(me, e, -1, wb) or (step is not None and step >= 1):
+                    grow.append(wb)
+                elif not (num.prove_le(me, e, 0, wb) or (step is not None and step >= 0)):
+                    ok = False
+            finally:
+                num.ignore_write = None
+            if not ok:
+                break
+        if ok and grow and _on_every_cycle_set(cfg, loop, grow):
+            return True
+    return False
 
 
 def _counter_general(fn, cfg, du, g, loop):
@@ -418,6 +481,10 @@ def _derives(du, l, path, B, depth, blocks):
                 if not path or path[0] != ("d", "Continue"):
                     return None
                 if _derives(du, src[0], _path(src[1]) + (("d", "Ok"),) + path[1:], B, depth + 1, blocks) is None:
+                    return None
+            elif cn.endswith("::map_err") or cn.endswith("::or_else"):
+                # the Ok payload is untouched
+                if _derives(du, src[0], _path(src[1]) + path, B, depth + 1, blocks) is None:
                     return None
             elif cn.endswith("::unwrap") or cn.endswith("::expect"):
                 if _derives(du, src[0], _path(src[1]) + (("d", "Ok"), ("f", 0, "0")) + path, B, depth + 1, blocks) is None \
@@ -563,8 +630,18 @@ def _is_count_of(du, v, call_block, depth=0):
                     t = ds[0][3]
                     if (callee_name(t) or "").endswith("as std::ops::Try>::branch") and t["args"] and t["args"][0].get("k") in ("copy", "move"):
                         a = place_key(t["args"][0])
-                        ads = du.defs.get(a[0], [])
-                        return not a[1] and len(ads) == 1 and ads[0][0] == "call" and ads[0][1] == call_block
+                        for _ in range(3):
+                            ads = du.defs.get(a[0], [])
+                            if a[1] or len(ads) != 1 or ads[0][0] != "call":
+                                return False
+                            if ads[0][1] == call_block:
+                                return True
+                            t2 = ads[0][3]
+                            if (callee_name(t2) or "").endswith("::map_err") and t2["args"] and t2["args"][0].get("k") in ("copy", "move"):
+                                a = place_key(t2["args"][0])     # read(..).map_err(..)?
+                                continue
+                            return False
+                        return False
                 if len(ds) == 1 and ds[0][0] == "assign" and ds[0][3]["k"] == "use" and ds[0][3]["ops"][0].get("k") in ("copy", "move"):
                     src = place_key(ds[0][3]["ops"][0])
                     return _is_count_of(du, ("place", (src[0], tuple(src[1]) + p)), call_block, depth + 1)
@@ -607,7 +684,8 @@ def _increments_every_cycle(cfg, du, loop, l):
 def loop_rule(ctx, chk, prop, rule_name, seen):
     F = ctx.F
     r = chk.rule(rule_name, "every natural loop exits on the None arm of a finite iterator, on a cursor read's EOF/error, or on a strictly advancing bounded counter")
-    allow = {e["loop"]: e for e in ctx.table("safe_sites").get("loops", [])}
+    from .renames import rekey_loop
+    allow = {rekey_loop(ctx, e["loop"]): e for e in ctx.table("safe_sites").get("loops", [])}
     for n in sorted(seen):
         fn = F.fns.get(n)
         if fn is None or fn.kind == "Promoted":
